@@ -114,7 +114,7 @@ theorem eff_ctorPtr {s s' : St} (h : Inv s) {v : Nat} (hv : v < s.n) {src : List
   obtain ⟨m, hm, h1, h2, h3⟩ := mkBlock_spec src
   simp only [ctorPtr, hm, Option.bind_eq_bind, Option.bind_some, Option.pure_def, Option.some.injEq] at e
   subst e
-  exact ⟨inv_allocSet h hv h1 (le_capRule _) h3, (allocSet_fields ..).1, (allocSet_fields ..).2,
+  exact ⟨inv_allocSet h hv h1 (le_ctorRule _) h3, (allocSet_fields ..).1, (allocSet_fields ..).2,
     by rw [abs_allocSet_self, h2], fun w hw => abs_allocSet_other h hv _ _ _ hw⟩
 
 theorem eff_ctorFill {s s' : St} (h : Inv s) {v : Nat} (hv : v < s.n) {n c : Nat}
